@@ -577,14 +577,14 @@ def far_fixed(rng, case, pattern=None, neg=False):
     return dict(case, mods=mods, nets=nets, far=pattern + ("/neg" if neg else ""))
 
 
-def gen_die_far(rng):
+def gen_die_far(rng, pattern=None):
     """spectral_layout_die with one to three fixed nodes on the edges, at the corners and beyond the right / top edge"""
     case = gen_die(rng)
     n = len(case["fx"])
     fx = [False] * n
     for i in rng.sample(range(n), rng.choice([1, 1, 2, 3]) if n >= 6 else 1):
         fx[i] = True
-    pattern = rng.choice([p for p in FAR_PATTERNS if p != "seed"])
+    pattern = pattern or rng.choice([p for p in FAR_PATTERNS if p != "seed"])
     pts = far_points(rng, case["W"], case["H"], pattern)
     ini = [list(case["ini"][0]), list(case["ini"][1])]
     k = 0
@@ -1993,7 +1993,7 @@ def run(ctx, out, replay=None):
     nl = 24 if quick else 180
     nc = 12 if quick else 60
     ncli = 5 if quick else 30
-    nfar = (3, 6, 2, 2) if quick else (30, 60, 20, 15)       # fixed modules on the edges / outside: die, layout, chain, cli
+    nfar = (4, 6, 2, 2) if quick else (30, 60, 20, 15)       # fixed modules on the edges / outside: die, layout, chain, cli
     out.rule = ("kernels on dyadic vectors (normalize: entries k/8, zeros, entries at, one ulp around and near the 10e-10 "
                 "threshold, spans k/4 incl. 0, fixed flags; orthogonalize: 2-4 rows incl. the all-ones row, masses zero on "
                 "fixed nodes or not, parallel rows, all nodes fixed, normalised dot product exactly at / one unit below / above "
@@ -2068,7 +2068,7 @@ def run(ctx, out, replay=None):
     # step ... 1000 dies), in every stream; the first layout is the seed's netlist shape (pads E, N beyond, W on the edge)
     far_rng = random.Random(f"far-{ctx.seed}")
     for i in range(nfar[0]):
-        heavy.append(gen_die_far(far_rng))
+        heavy.append(gen_die_far(far_rng, ["beyond", "corners", "diag", "edges", "mixed"][i % 5]))
     for i in range(nfar[1]):
         case = far_fixed(far_rng, gen_layout_struct(far_rng) if i % 4 == 3 else gen_layout(far_rng),
                          pattern=FAR_ORDER[i % len(FAR_ORDER)], neg=(i % 8 == 5))
